@@ -492,6 +492,8 @@ func check(prop, tier string) int {
 	known := loadKnown()
 	exit := 0
 	violCount := 0
+	unconfirmedStalls := 0
+	spuriousClass := map[string]bool{}
 	knownCount := 0
 	seenClass := map[string]int{}
 	var violSamples []interface{}
@@ -517,12 +519,21 @@ func check(prop, tier string) int {
 			return 2
 		}
 		// Must reproduce exactly, twice, in fresh processes.
-		okReplay := true
+		okReplay, spurious := true, false
 		for k := 0; k < 2; k++ {
 			rr, err := replayOnce(bin, path, []int{1, 8}[k])
 			if err != nil {
 				fmt.Fprintln(os.Stderr, err)
 				okReplay = false
+				break
+			}
+			if r.Digest == "stall" && rr.OK {
+				// The seed runs to the end in a fresh process: the worker was
+				// starved or suspended, not hung. Counted, not reported.
+				fmt.Fprintf(os.Stderr, "seed %d: the stall of the worker does not recur when the seed is re-run; counted as unconfirmed_stalls\n", r.Seed)
+				unconfirmedStalls++
+				spurious = true
+				spuriousClass[r.Viol.Class] = true
 				break
 			}
 			// The race detector reports each pair of stacks once per process:
@@ -539,6 +550,10 @@ func check(prop, tier string) int {
 				okReplay = false
 				break
 			}
+		}
+		if spurious {
+			violCount--
+			continue
 		}
 		if !okReplay {
 			fmt.Fprintf(os.Stderr, "seed %d: failure does not replay exactly: uncontrolled nondeterminism in the machinery, not reported as a violation\n", r.Seed)
@@ -561,7 +576,7 @@ func check(prop, tier string) int {
 	// classes beyond the first two per class still count
 	for i := range all {
 		r := &all[i]
-		if !r.OK && seenClass[r.Viol.Class] > 2 && matchKnown(known, prop, r.Viol) == nil {
+		if !r.OK && seenClass[r.Viol.Class] > 2 && !spuriousClass[r.Viol.Class] && matchKnown(known, prop, r.Viol) == nil {
 			exit = 1
 		}
 	}
@@ -633,6 +648,7 @@ func check(prop, tier string) int {
 		cov["violation_samples"] = violSamples
 	}
 	cov["known_findings_matched"] = knownCount
+	cov["unconfirmed_stalls"] = unconfirmedStalls
 	ev["violations"] = violCount - knownCount
 	ev["wall_s"] = time.Since(start).Seconds()
 	data, _ := json.MarshalIndent(ev, "", " ")
